@@ -141,8 +141,16 @@ func (t *TSpec) build() (spec *core.Spec, ok bool, why string) {
 	if err != nil {
 		return nil, false, err.Error()
 	}
-	if err := spec.Compile(ctx, quietInterpreters(), true); err != nil {
-		return nil, false, "compile: " + err.Error()
+	odd := false
+	for _, tn := range t.Nodes {
+		if tn != nil && tn.BType != "" && tn.BType != "message" && tn.BType != "bindings" {
+			odd = true // a branching type Compile rejects: the tools see such a specification before any compilation
+		}
+	}
+	if !(odd && !t.Compile) {
+		if err := spec.Compile(ctx, quietInterpreters(), true); err != nil {
+			return nil, false, "compile: " + err.Error()
+		}
 	}
 	if t.Compile {
 		return spec, true, ""
@@ -1191,6 +1199,9 @@ func (g *G) tspec() *TSpec {
 		if g.chance(0.8) {
 			tn.HasBranches = true
 			tn.BType = []string{"", "message", "bindings"}[g.intn(3)]
+			if !t.Compile && g.chance(0.06) {
+				tn.BType = g.pick([]string{"mesage", "none", "Message"}) // a typo: analysed and drawn like any other node
+			}
 			nb := g.intn(4)
 			if g.chance(0.15) {
 				nb = 0
